@@ -107,10 +107,19 @@ def generate(repo):
     if not mr:
         raise TranslateError("m_counter assignment in the rebuild branch not found")
     rest = body[jb:]
-    if re.search(r"\+\+\s*m_counter\s*;|m_counter\s*\+\+\s*;|m_counter\s*\+=\s*1\s*;", rest):
+    # the increment must be INSIDE the else-branch of `if (newList)` (the refresh branch), and nowhere else: an increment after the
+    # if/else would also run after a rebuild (counter 2 instead of 1)
+    me = re.match(r"\s*else\s*\{", rest)
+    if not me:
+        raise TranslateError("else-branch of `if (newList)` not found")
+    je = match_brace(rest, me.end() - 1)
+    refresh_blk, tail = rest[me.end():je], rest[je:]
+    inc = r"\+\+\s*m_counter\s*;|m_counter\s*\+\+\s*;|m_counter\s*\+=\s*1\s*;"
+    if len(re.findall(inc, refresh_blk)) == 1 and not re.search(inc, tail) and not re.search(inc, rebuild_blk):
         refresh_counter = "m_counter + 1"
     else:
-        raise TranslateError("counter increment in the refresh branch not found")
+        raise TranslateError("exactly one counter increment, inside the refresh branch, expected (found %d there, %d after the if/else, %d in the rebuild branch)"
+                             % (len(re.findall(inc, refresh_blk)), len(re.findall(inc, tail)), len(re.findall(inc, rebuild_blk))))
     # --- refresh wrap (first occurrence in the else-branch)
     wraps = re.findall(r"if\s*\(\s*cartesian\[dir\]\s*([<>]=?)\s*(-?)\s*([0-9.]+)\s*\*\s*size\s*\)\s*cartesian\[dir\]\s*([-+])=\s*size\s*;", rest)
     if len(wraps) < 2 or len(wraps) % 2 != 0:
@@ -127,6 +136,9 @@ def generate(repo):
         f = emr.lit(fac)
         thr = "(%s * size)" % f if not neg else "(-(%s * size))" % f
         return "  let c := if c %s %s then c %s size else c" % (op, thr, sign)
+    # --- the rebuild branch: snapshot of the displacements, tested quantity of the scan
+    snap = bool(re.search(r"if\s*\(\s*m_needDisp\s*\[\s*c\s*\]\s*\)\s*\{\s*FOR_EACH_FREE_PARTICLE_C__PARALLEL\s*\(\s*phase\s*,\s*c\s*,\s*this\s*,\s*\(?\s*i->tag\.pointByOffset\(\s*this->m_displacementOld_o\[c\]\s*\)\s*\)?\s*=\s*\(?\s*i->tag\.pointByOffset\(\s*this->m_displacement_o\[c\]\s*\)\s*\)?\s*;", " ".join(body.split())))
+    scanned = bool(re.search(r"dispNow\s*=\s*\(?\s*\w+->tag\.pointByOffset\(\s*(?:this->)?m_displacement_o\[\w+\]\s*\)\s*\)?\s*-\s*\(?\s*\w+->tag\.pointByOffset\(\s*(?:this->)?m_displacementOld_o\[\w+\]\s*\)", " ".join(body.split())))
     # --- list cutoff
     mc = re.search(r"cp->setCutoff\s*\(([^;]*)\)\s*;", setup)
     if not mc:
@@ -163,12 +175,17 @@ def refreshWrap (size : Rat) (c : Rat) : Rat :=
 /-- is the wrap in the refresh branch guarded by the periodicity of the direction? -/
 def refreshWrapGuardedByPeriodicity : Bool := %s
 
+/-- on a rebuild every free particle's `displacement__Old` is set to its current `displacement` (for every colour that needs it) -/
+def rebuildSnapshotsDisplacement : Bool := %s
+/-- the scan tests `dispNow = displacement − displacement__Old` of every particle -/
+def scanTestsDisplacementSinceSnapshot : Bool := %s
+
 /-- `cp->setCutoff(%s)` for colour pairs that need pairs -/
 def listCutoff (cutoff m_skin_size : Rat) : Rat := %s
 
 end Sympler.Gen.Verlet
 """ % (scan, "true" if outside else "false", init1, init2, m.group(1).strip(), every, mr.group(1), mr.group(1), refresh_counter, wrapline(first[0]), wrapline(first[1]),
-       "true" if guarded else "false", mc.group(1).strip(), lc)
+       "true" if guarded else "false", "true" if snap else "false", "true" if scanned else "false", mc.group(1).strip(), lc)
 
 
 if __name__ == "__main__":
